@@ -14,6 +14,10 @@ pub struct C13Case {
     /// value given to the planted member
     #[serde(with = "crate::exact")]
     pub value: Value,
+    /// > 0: instead of enumerating, the claims get an array of this many elements and the member is
+    /// planted in an object at a few telling positions of it (first, 255, 256, 65535, 65536, last)
+    #[serde(default)]
+    pub huge: u32,
 }
 
 /// Enumerate every planting of `{name: value}` into `v`; `f(description, depth, in_array, planted)`.
@@ -152,6 +156,39 @@ pub fn check(case: &C13Case, st: &mut Stats) -> Verdict {
     let mut strategies = vec![Strat::NoSD, Strat::TopLevel, Strat::AllLevels];
     if let Strat::Custom(_) = &spec.strat {
         strategies.push(spec.strat.clone());
+    }
+    if case.huge > 0 {
+        st.label("huge_array_plantings");
+        let n = case.huge as usize;
+        for name in ["_sd", "..."] {
+            for pos in [0usize, 255, 256, 65_535, 65_536, 65_537, n - 1] {
+                if pos >= n {
+                    continue;
+                }
+                let mut arr: Vec<Value> = (0..n).map(|i| Value::from((i % 7) as u64)).collect();
+                let mut o = serde_json::Map::new();
+                o.insert("k".into(), Value::from(1));
+                o.insert(name.to_string(), case.value.clone());
+                arr[pos] = Value::Object(o);
+                let mut claims = spec.claims.clone();
+                claims["readings"] = Value::Array(arr);
+                for strat in [Strat::NoSD, Strat::TopLevel, Strat::Custom(vec![format!("$.readings[{}]", pos.saturating_sub(1))])] {
+                    st.sub(1);
+                    st.nontrivial_sub(&format!("huge|{}|{}|{}", name, pos, strat.kind()));
+                    match sut::issue(&IssueSpec { claims: claims.clone(), strat: strat.clone(), ..spec.clone() }) {
+                        Out::Err(_) => {}
+                        Out::Ok(_) => {
+                            return Err(Failure::new(
+                                format!("planted:{}:issued", name),
+                                format!("claims with a member named {:?} in the object at position {} of a {}-element array were issued instead of refused (strategy {})", name, pos, n, strat.kind()),
+                            ))
+                        }
+                        Out::Panic(p) => return Err(Failure::new(panic_sig("issue_sd_jwt", &p), format!("issue_sd_jwt panicked: {}", p))),
+                    }
+                }
+            }
+        }
+        return Ok(());
     }
     let mut failure: Option<Failure> = None;
     let mut planting_no = 0u64;
